@@ -3,8 +3,8 @@
    The image model follows the code repaired by fixes/F18-hpm-oem-data-slice.diff. *)
 From Coq Require Import NArith ZArith List.
 From PyIpmi Require Import Lib.Res Lib.Bytes Lib.Prog
-  Model.HpmImage Model.HpmImageSpec Model.HpmUpload Model.HpmDevice
-  Proofs.HpmImageProofs Proofs.HpmUploadProofs.
+  Model.HpmImage Model.HpmImageSpec Model.HpmUpload Model.HpmDevice Model.HpmUpgrade Model.HpmUpgradeSpec
+  Proofs.HpmImageProofs Proofs.HpmUploadProofs Proofs.HpmUpgradeProofs.
 Import ListNotations.
 Open Scope N_scope.
 
@@ -68,6 +68,122 @@ Theorem C18_upload_fuel : forall S (dev : device S) s bs binary timeout interval
   outcome (run (upload_binary bs binary timeout interval retry) dev s []) <> Err OutOfFuel.
 Proof. exact upload_no_out_of_fuel. Qed.
 Print Assumptions C18_upload_fuel.
+
+(* ---- the upgrade drivers on top of upload_binary (Model/HpmUpgrade.v), against ANY device ---- *)
+
+(* (1) Order.  Whenever installing one component from the file of ANY well-formed image
+   succeeds - on any device whatsoever, with any pattern of in-progress answers and poll
+   counts - the steps read off the wire (status polls dropped; the blocks after an
+   Initiate(upload) collapsed to their data if numbered 0,1,.. mod 256 and none above the block
+   size, TBad otherwise) are exactly: Abort Firmware Upgrade, Get Device Id, Get Target Upgrade
+   Capabilities; then per action record of the image that names the component, in order,
+   Initiate Upgrade Action (the record's action, mask of this component) and for an upload
+   record the blocks of exactly its firmware and Finish Firmware Upload with the component
+   and the firmware length (32 bit little-endian on the wire); then Activate Firmware without
+   rollback override; then only Get Device Id probes while the new firmware comes up. *)
+Theorem C18_install_order : forall (md5 : list N -> list N),
+  (forall x, length (md5 x) = 16%nat) ->
+  forall i c tick S (dev : device S) s, s_image_ok i ->
+  outcome (run (install_component_from_file (enc_image md5 i) c tick) dev s []) = Ok tt ->
+  exists n, steps_of BLOCK_SIZE (trace (run (install_component_from_file (enc_image md5 i) c tick) dev s []))
+            = install_steps i c ++ repeat TDeviceId n.
+Proof. exact install_order. Qed.
+Print Assumptions C18_install_order.
+
+(* (3) Refusal.  On any device: an exchange of the installation whose reply is a completion
+   code other than 0x00 (and other than a followed-up 0x80) is the LAST exchange, and the
+   outcome is HpmError when the refused request is Initiate Upgrade Action, Upload Firmware
+   Block, Finish Firmware Upload or Activate Firmware, and the CompletionCodeError itself for
+   Abort Firmware Upgrade, Get Device Id, Get Target Upgrade Capabilities and Get Upgrade Status. *)
+Theorem C18_install_refusal_aborts : forall (md5 : list N -> list N),
+  (forall x, length (md5 x) = 16%nat) ->
+  forall i c tick S (dev : device S) s, s_image_ok i ->
+  forall pre x post,
+    trace (run (install_component_from_file (enc_image md5 i) c tick) dev s []) = pre ++ x :: post ->
+    refusal x = true ->
+    post = [] /\ exists q cc d, x = (q, RBytes (cc :: d)) /\
+      outcome (run (install_component_from_file (enc_image md5 i) c tick) dev s []) = Err (err_for q cc).
+Proof. exact install_refusal_aborts. Qed.
+Print Assumptions C18_install_refusal_aborts.
+
+(* the same for each *_and_wait driver on its own (they are instances of and_wait, see the
+   Example below): a refusal of the command or of a status poll is the last exchange *)
+Theorem C18_and_wait_refusal_aborts : forall q timeout interval sw S (dev : device S) s,
+  waits q = true ->
+  forall pre x post,
+    trace (run (and_wait q timeout interval sw) dev s []) = pre ++ x :: post -> refusal x = true ->
+    post = [] /\ exists q' cc d, x = (q', RBytes (cc :: d)) /\
+      outcome (run (and_wait q timeout interval sw) dev s []) = Err (err_for q' cc).
+Proof. exact and_wait_refusal_aborts. Qed.
+Print Assumptions C18_and_wait_refusal_aborts.
+
+(* (2) Completion.  Full strength - "a *_and_wait driver returns only after the device
+   reported the long duration command complete" - is FALSE of the code (known finding
+   wait_for_long_duration_command:gives-up-silently): against the reference block receiver
+   that stays busy for 50 polls, the driver returns normally after 3 polls, none of which
+   reported completion, and the device is still busy. *)
+Theorem C18_and_wait_refuted :
+  let r := run (and_wait (block_req 0 []) 300 100 false) hpm_device (d_init [InProgress 50]) [] in
+  outcome r = Ok tt /\ answered_in_progress (snd (hd (status_req, RRaise OutOfFuel) (trace r))) = true /\
+  forallb (fun x : exch => negb (poll_done (snd x))) (tl (trace r)) = true /\
+  d_pending (snd (fst r)) = 47%nat.
+Proof. exact and_wait_gives_up. Qed.
+Print Assumptions C18_and_wait_refuted.
+
+(* ... and holds except for that: on any device, for every in-progress pattern and poll
+   count, a successful *_and_wait was accepted at once, or (activate / manual rollback) its
+   request timed out, or it was answered "in progress" and then issued only status polls
+   until one reported the command complete - or until its own time-out was used up
+   (number of polls * interval >= timeout). *)
+Theorem C18_and_wait_except_known : forall q timeout interval sw S (dev : device S) s,
+  outcome (run (and_wait q timeout interval sw) dev s []) = Ok tt ->
+  exists rp polls,
+    trace (run (and_wait q timeout interval sw) dev s []) = (q, rp) :: polls /\
+    status_exchanges polls /\
+    ((reply_is_cc 0 rp = true /\ polls = []) \/
+     (sw = true /\ rp = RRaise TimeoutError /\ polls = []) \/
+     (answered_in_progress rp = true /\
+      (polls_complete polls \/ timeout <= N.of_nat (length polls) * interval))).
+Proof. exact and_wait_complete. Qed.
+Print Assumptions C18_and_wait_except_known.
+
+(* fuel: the polling loops inside the drivers and the installation never run out of fuel
+   (interval >= 1, clock tick of the come-up loop >= 1), on any sane device *)
+Theorem C18_and_wait_fuel : forall q timeout interval sw S (dev : device S) s tr,
+  1 <= interval -> sane_device dev ->
+  outcome (run (and_wait q timeout interval sw) dev s tr) <> Err OutOfFuel.
+Proof. intros q t i sw S dev s tr Hi Hd. exact (noof_and_wait q t i sw Hi S dev s tr Hd). Qed.
+Print Assumptions C18_and_wait_fuel.
+
+Theorem C18_install_fuel : forall file c tick S (dev : device S) s tr,
+  1 <= tick -> sane_device dev ->
+  outcome (run (install_component_from_file file c tick) dev s tr) <> Err OutOfFuel.
+Proof. intros f c t S dev s tr Ht Hd. exact (noof_install_file f c t Ht S dev s tr Hd). Qed.
+Print Assumptions C18_install_fuel.
+
+(* the four *_and_wait methods are and_wait on a request that is followed up (waits) *)
+Example C18_drivers_are_and_wait : forall c l m a o t i,
+  finish_upload_and_wait c l t i = and_wait (finish_req c l) t i false /\
+  activate_firmware_and_wait o t i = and_wait (activate_req o) t i true /\
+  initiate_manual_rollback_and_wait t i = and_wait manual_rollback_req (60 * sec) i true /\
+  (initiate_guard m a = false -> initiate_upgrade_action_and_wait m a t i = and_wait (initiate_req m a) t i false) /\
+  waits (finish_req c l) = true /\ waits (activate_req o) = true /\ waits manual_rollback_req = true /\
+  waits (initiate_req m a) = true /\ waits (block_req m []) = true.
+Proof.
+  intros. repeat split; try reflexivity.
+  intros H. unfold initiate_upgrade_action_and_wait. now rewrite H.
+Qed.
+(* an installation that succeeds exists: the image of C18_image_exists, component 1, on the
+   reference upgrade device with in-progress answers and a restart of 2 unanswered requests *)
+Example C18_install_runs :
+  let i := mkSImage (mkSHeader 4 15000 1701 1527163595 7 2 12 12 12 0 0 (mkSVer 1 23 [1; 2; 3; 4]) [0xde; 0xad])
+                    [SBackup 2; SPrepare 2; SUpload 2 (mkSVer 4 50 [1; 3; 0; 0]) (repeat 65 21) (repeat 7 50)] in
+  let md5 := fun _ : list N => repeat 0 16 in
+  let r := run (install_component_from_file (enc_image md5 i) 1 333)
+               upg_device (u_init [[Accept; InProgress 2]] [Accept; InProgress 1; Accept; InProgress 0; InProgress 3] (4, 15000, 1701) 2 2) [] in
+  outcome r = Ok tt /\
+  steps_of BLOCK_SIZE (trace r) = install_steps i 1 ++ repeat TDeviceId 28.
+Proof. vm_compute. split; reflexivity. Qed.
 
 (* non-vacuity: a well-formed image with OEM data and all three record types; a plan with
    an in-progress block; a plan with a refusal; the reference device is a sane device *)
